@@ -95,6 +95,7 @@ func checkC10(c *Ctx) {
 	c.Check(len(leaves) >= 30, "R10.1", "config.TOMLDeviceConfig/leaves", "-", fmt.Sprintf("%d TOML leaf fields enumerated from the struct type", len(leaves)), "TOML struct not found or too small")
 	ruleFieldCorrespondence(c, pf, leaves)
 	ruleReaderWriterAgreement(c, pf)
+	ruleRequiredWhereUsedUnguarded(c, pf, "R10.13")
 	ruleBounds(c, pf)
 	ruleVocabularies(c, pf)
 	ruleUnknownFields(c, pf)
@@ -708,6 +709,60 @@ func useBlocks(v ssa.Value) []*ssa.BasicBlock {
 				walk(x.(ssa.Value))
 			case *ssa.UnOp:
 				walk(x)
+			case *ssa.Store:
+				// put into a local variable or a component of one (`negative := ccTarget{channel, analog.CCNeg}`, later
+				// `active, opposite = negative, positive`): used where that variable is read. Any read of the variable counts
+				// (its components are not told apart); an address of it that goes anywhere else is a use on the spot.
+				if x.Val == v && allocRooted(x.Addr) {
+					root := x.Addr
+					for {
+						switch y := root.(type) {
+						case *ssa.FieldAddr:
+							root = y.X
+							continue
+						case *ssa.IndexAddr:
+							root = y.X
+							continue
+						}
+						break
+					}
+					if a, isA := root.(*ssa.Alloc); isA && !seen[a] {
+						seen[a] = true
+						var reads func(addr ssa.Value)
+						reads = func(addr ssa.Value) {
+							if addr.Referrers() == nil {
+								return
+							}
+							for _, ar := range *addr.Referrers() {
+								switch y := ar.(type) {
+								case *ssa.DebugRef:
+								case *ssa.FieldAddr:
+									reads(y)
+								case *ssa.IndexAddr:
+									reads(y)
+								case *ssa.UnOp:
+									walk(y)
+								case *ssa.Store:
+									if y.Addr != addr && !blocks[y.Block()] { // the address itself is stored somewhere
+										blocks[y.Block()] = true
+										out = append(out, y.Block())
+									}
+								default:
+									if !blocks[ar.Block()] {
+										blocks[ar.Block()] = true
+										out = append(out, ar.Block())
+									}
+								}
+							}
+						}
+						reads(a)
+					}
+					continue
+				}
+				if !blocks[r.Block()] {
+					blocks[r.Block()] = true
+					out = append(out, r.Block())
+				}
 			default:
 				if !blocks[r.Block()] {
 					blocks[r.Block()] = true
@@ -1181,6 +1236,75 @@ func ruleEvCodeProvenance(c *Ctx, pf *parserFacts) {
 	if n == 0 {
 		c.Undec("R10.8", "config.TomlKeyToEvCode/success-returns", c.P.Pos(fn.Pos()), "no success return found")
 	}
+	// the table says what kind of name it is: a key name is a name evdev knows as a key, an axis name one it knows as an
+	// axis. Every table the conversion looks names up in is one of evdev's name tables - handed in by the caller, who knows
+	// which kind it is reading, or consulted directly; a table of the package that holds the names of both kinds turns
+	// "ABS_X" into a key code and "KEY_A" into an axis.
+	evdevTable := func(v ssa.Value) string {
+		if ld, ok := v.(*ssa.UnOp); ok && ld.Op == token.MUL {
+			if g, isG := ld.X.(*ssa.Global); isG && g.Pkg != nil && strings.Contains(g.Pkg.Pkg.Path(), "go-evdev") {
+				return g.Name()
+			}
+		}
+		return ""
+	}
+	tables := map[string]bool{}
+	bad8 := ""
+	for _, b := range fn.Blocks {
+		for _, in := range b.Instrs {
+			lk, ok := in.(*ssa.Lookup)
+			if !ok {
+				continue
+			}
+			if _, isMap := lk.X.Type().Underlying().(*types.Map); !isMap {
+				continue
+			}
+			if t := evdevTable(lk.X); t != "" {
+				tables[t] = true
+				continue
+			}
+			prm, isPrm := lk.X.(*ssa.Parameter)
+			if !isPrm {
+				bad8 = fmt.Sprintf("the name is looked up in %s at %s, which is neither one of evdev's name tables nor a table the caller hands in: the hit does not say whether the name is a key or an axis", lk.X.Name(), c.P.Pos(lk.Pos()))
+				continue
+			}
+			sites, all := staticCallSites(c.P, fn)
+			idx := paramIndex(prm)
+			if !all || idx < 0 {
+				bad8 = "the callers of the conversion are not all known"
+				continue
+			}
+			var fromSites func(sites []ssa.CallInstruction, idx, depth int)
+			fromSites = func(sites []ssa.CallInstruction, idx, depth int) {
+				for _, cs := range sites {
+					if idx >= len(cs.Common().Args) {
+						continue
+					}
+					arg := cs.Common().Args[idx]
+					if t := evdevTable(arg); t != "" {
+						tables[t] = true
+						continue
+					}
+					// handed on by a helper that was itself handed the table
+					if p2, isP := arg.(*ssa.Parameter); isP && depth < 3 {
+						if pf2 := p2.Parent(); pf2.TypeParams().Len() > 0 && len(pf2.TypeArgs()) == 0 {
+							continue // the body of a generic helper as written: its instantiations are the ones that are called
+						}
+						if s2, all2 := staticCallSites(c.P, p2.Parent()); all2 && paramIndex(p2) >= 0 {
+							fromSites(s2, paramIndex(p2), depth+1)
+							continue
+						}
+					}
+					bad8 = fmt.Sprintf("the call at %s hands in a table that is not one of evdev's name tables", c.P.Pos(cs.Pos()))
+				}
+			}
+			fromSites(sites, idx, 0)
+		}
+	}
+	if bad8 == "" && len(tables) == 0 {
+		bad8 = "no lookup in a name table found"
+	}
+	c.Check(bad8 == "", "R10.8", "config.TomlKeyToEvCode/names-looked-up-in-a-table-of-one-kind", c.P.Pos(fn.Pos()), fmt.Sprintf("names are looked up in evdev's %v (one kind per table)", sortedKeys(tables)), bad8)
 }
 
 // foundFlagGuards: some guard that holds at block b is `F` (taken) or `!F` (not taken) for a boolean phi F that runs parallel
